@@ -17,20 +17,22 @@ from harness.common.watchdog import time_limit, Timeout
 ID = "C01"
 MODELS = ["OptiVerif.Model.Container"]
 MANIFEST = {
-    "text": "Lean 4 theorems (Props/C01.lean) over an exact model of typing.py's containers (constructors with the n_pol "
-            "table, dtype lattice, numpy broadcasting, CPython slice.indices, the four noise branches of + - rsub *): every "
-            "successfully evaluated expression of ANY depth is well formed (non-empty rows, equal lengths, noise of the same "
-            "shape, n_pol = row count) and has the statically predicted class / polarisation count / length; total field of "
-            "a±b and of b-a (reflected) = sum/difference of the operands' total fields with broadcast; noise iff; "
-            "acceptance iff equal lengths or length-1 right operand, rejection is ValueError; x[sl] holds exactly the samples "
-            "at CPython's slice indices in every polarisation of signal and noise; slice length formula and index range. "
-            "Tie: exact differential run of the compiled model against the real objects on random programs (depth <= 6 / 10), "
-            "every constructor form and operand kind, all slice triples for small n.",
-    "note": "Trusted: Lean kernel, harness, numpy/CPython semantics mirrored by the model (np.array, result_type on "
-            "{int64,float64,complex128}, broadcasting, slice.indices). Monitored, not proved: operands bit-for-bit unchanged, "
-            "no shared memory, domain transforms x('w')/x('t'). Axioms: propext, Classical.choice, Quot.sound.",
-    "technique": "Lean 4 proof (structural induction over an expression language, list/Int arithmetic) + exact differential "
-                 "correspondence run + runtime monitors",
+    "text": "Lean 4 theorems (Props/C01.lean) over an exact model of typing.py's containers whose operator tables (signal / noise "
+            "expression of each of the four noise branches of + - rsub *, the rejection test, its exception, the broadcast_to wrapper) "
+            "and n_pol defaults are re-translated from the source on every run: every successfully evaluated expression of ANY depth "
+            "is well formed (non-empty rows, equal lengths, noise of exactly the signal's shape, n_pol = row count) and has the "
+            "statically predicted class / polarisation count / length; every constructor form returns a well-formed object with the "
+            "n_pol table's polarisation count; total field of a+b, a-b and reflected b-a = sum/difference of the operands' total fields "
+            "with broadcast for all noise patterns; noise iff; acceptance iff equal lengths or length-1 right operand, rejection is "
+            "ValueError; scalars broadcast; x[sl] holds exactly the samples at CPython's slice indices in every polarisation of signal "
+            "and noise, accepted iff non-empty; x[i] iff -n<=i<n (IndexError otherwise); copy()=equal object; slice length formula, "
+            "exactness and index range. Tie: translator + exact differential run of the compiled model against the real objects on random "
+            "programs (depth <= 6 / 10), every constructor form and operand kind, all slice triples for n <= 7.",
+    "note": "Trusted: Lean kernel, translator tools/extractors/container.py, harness, numpy/CPython semantics mirrored by the model "
+            "(np.array, result_type on {int64,float64,complex128}, broadcasting, slice.indices). Monitored, not proved: operands "
+            "bit-for-bit unchanged, no shared memory, domain transforms x('w')/x('t'). Axioms: propext, Classical.choice, Quot.sound.",
+    "technique": "Lean 4 proof (structural induction over an expression language, list/Int arithmetic, AddCommGroup algebra) over a model "
+                 "whose tables are regenerated from source + exact differential correspondence run + runtime monitors",
     "design": "§5 C01",
 }
 GEN = ["Container"]
